@@ -113,7 +113,7 @@ class Exec:
                     on_crash(self)
                 while True:
                     try:
-                        self.eng.restart_with_recovery(sweeps=sweeps)
+                        self.eng.restart_with_recovery(sweeps=sweeps, lapse_first=getattr(self, "lapse_first", True))
                         break
                     except SimCrash:
                         self._note_crash()
